@@ -37,9 +37,15 @@ def _prog(key):
     return t0tool.load(key)
 
 
+def _selected():
+    sel = os.environ.get("C05_PROGS")          # development aid: restrict the programs
+    keys = LAYER2_PROGRAMS + HS_PROGRAMS
+    return [k for k in keys if not sel or k in sel.split(",")]
+
+
 def queries():
     qs = []
-    for key in LAYER2_PROGRAMS + HS_PROGRAMS:
+    for key in _selected():
         try:
             p = _prog(key)
             d = t0tool.gen_dir(p)
